@@ -1,0 +1,29 @@
+//go:build verif
+
+package bconfig
+
+import "sort"
+
+// VerifC16ConfigTypeNames returns the type names registered for the config class C (sorted), i.e. the keys of the
+// table ConfigHolder[C].UnmarshalYAML looks the constructor up in. Only compiled with the "verif" build tag; used
+// by the verification harness of the configuration loader. Call it after the classes have been registered
+// (importing package run is enough).
+func VerifC16ConfigTypeNames[C BaseConfig]() []string {
+	table := getConfigConstructors[C]()
+	names := make([]string, 0, len(table))
+	for name := range table {
+		names = append(names, name)
+	}
+	sort.Strings(names)
+	return names
+}
+
+// VerifC16NewConfig creates an empty config of the named type of class C, as ConfigHolder[C].UnmarshalYAML does
+// before it decodes the node into it; ok is false if the type is not registered.
+func VerifC16NewConfig[C BaseConfig](name string) (config C, ok bool) {
+	create, found := getConfigConstructors[C]()[name]
+	if !found {
+		return config, false
+	}
+	return create(), true
+}
